@@ -413,7 +413,10 @@ impl Engine {
         }
         let t0 = Instant::now();
         let shards = self.threads.max(1);
-        let per = (spec.cases + shards as u64 - 1) / shards as u64;
+        // development aid: VERIF_CASES_SCALE multiplies all random case counts
+        let scale: f64 = std::env::var("VERIF_CASES_SCALE").ok().and_then(|s| s.parse().ok()).unwrap_or(1.0);
+        let total_cases = ((spec.cases as f64) * scale).max(1.0) as u64;
+        let per = (total_cases + shards as u64 - 1) / shards as u64;
         let known = self.known.clone();
         let seed = self.seed;
         let sec_hash = crate::tape::fnv(section.as_bytes());
